@@ -1,3 +1,69 @@
-From ST Require Import Base.Outcome Mem.Heap Mem.Buffer Mem.BufferRun Mem.StringOps.
-Theorem placeholder : True. Proof. exact I. Qed.
-Print Assumptions placeholder.
+(* Properties/C19.v — C19: allocation failure propagates cleanly and leaves every object destructible.
+   PARTIAL: operator new[] is an oracle (a `new` that the fault schedule makes throw std::bad_alloc) and
+   std::vector growth (split/tokenize) is trusted to have the strong guarantee; what is proved is the order
+   of allocate / release / commit in the library's own buffer, string and string_stream code.
+   `arm st` = the state st with the NEXT allocation scheduled to fail.  Every buffer member and every
+   string operation performs at most one allocation, so `arm` covers "every allocation it performs".
+   Statements only; proofs in Mem/Faults.v, Mem/StreamFaults.v.                                      *)
+From Coq Require Import NArith List Lia.
+From ST Require Import Base.Outcome Mem.Heap Mem.Buffer Mem.BufferRun Mem.BufferInv Mem.BufferSteps
+  Mem.BufferHistory Mem.StringOps Mem.StringProofs Mem.Faults Mem.Stream Mem.StreamInv Mem.StreamFaults.
+Import ListNotations.
+
+(* buffer members: the exception reaches the caller; the invariant holds afterwards (nothing leaked,
+   nothing freed twice, every object readable / assignable / destructible: all C05 theorems apply to
+   the state); a failed constructor leaves no object and an unchanged store; the target of a failed
+   allocate keeps its value; the target of a failed copy assignment keeps its value (short) or is
+   empty (long); every other object is untouched *)
+Theorem c19_buffer_member : forall L, 1 <= L -> forall st s op,
+  Inv L st -> Rel st s -> wf_bop st op -> allocates L st op = true ->
+  exists st', run_bop L op (arm st) = (Throw BadAlloc, st') /\ Inv L st' /\ Rel st' (fault_spec L st s op) /\
+              (forall o', ~ In o' (targets op) -> objs st' o' = objs st o').
+Proof. exact fault_step. Qed.
+Print Assumptions c19_buffer_member.
+
+Theorem c19_failed_constructor_is_identity : forall L st o d,
+  Inv L st -> L <= length d -> ctor_ptr L o (Some d) (length d) (arm st) = (Throw BadAlloc, st).
+Proof. exact fault_ctor_ptr. Qed.
+Print Assumptions c19_failed_constructor_is_identity.
+
+Theorem c19_failed_allocate_is_identity : forall L st o r n,
+  Inv L st -> objs st o = Some r -> L <= n -> allocate L o n (arm st) = (Throw BadAlloc, st).
+Proof. exact fault_allocate. Qed.
+Print Assumptions c19_failed_allocate_is_identity.
+
+(* string operations (construction, set, copy, =, +=, slicing, case mapping, concatenation, replace,
+   to_utf8, ...: every footprint of Mem/StringOps.v that allocates): bad_alloc reaches the caller after
+   the temporaries and a half-built result have been destroyed; the invariant holds; apart from the
+   target of a copy assignment every object the caller can name keeps its record and contents, and no
+   new object exists *)
+Theorem c19_string_operation : forall L, 1 <= L -> forall st s t,
+  Inv L st -> Rel st s -> top_wf s t -> top_allocates L st t = true ->
+  exists st', run_top L t (arm st) = (Throw BadAlloc, st') /\ Inv L st' /\ Rel st' (fault_spec_top L st s t) /\
+    (forall x r, ~ In x (fault_touched t) -> objs st x = Some r -> objs st' x = Some r /\ contents st' r = contents st r) /\
+    (forall x, objs st x = None -> objs st' x = None).
+Proof. exact fault_top. Qed.
+Print Assumptions c19_string_operation.
+
+(* string_stream growth: `new` comes first, so a failing growth leaves the stream exactly as it was *)
+Theorem c19_stream_append : forall STK, 1 <= STK -> forall st o r d,
+  SInv STK st -> sobjs st o = Some r -> s_alloc r < s_size r + length d ->
+  s_append STK o d (sarm st) = (Throw BadAlloc, st).
+Proof. exact fault_append. Qed.
+Print Assumptions c19_stream_append.
+
+Theorem c19_stream_append_char : forall STK, 1 <= STK -> forall st o r c n,
+  SInv STK st -> sobjs st o = Some r -> s_alloc r < s_size r + n ->
+  s_append_char STK o c n (sarm st) = (Throw BadAlloc, st).
+Proof. exact fault_append_char. Qed.
+Print Assumptions c19_stream_append_char.
+
+(* non-vacuity: concrete states in which the hypotheses hold and the operation really throws *)
+Example c19_nonvacuous :
+  let long := repeat 120%N 20 in
+  let st := snd (run_ops 16 [BNew 0 long; BNew 1 [97%N]; BNew 2 long] store0) in
+  allocates 16 st (BAsg 0 2) = true /\ allocates 16 st (BAlloc 1 40 0%N) = true /\
+  fst (run_bop 16 (BAsg 0 2) (arm st)) = Throw BadAlloc /\
+  fst (run_top 16 (TAppend 1 0 ([97%N] ++ long)) (arm st)) = Throw BadAlloc /\
+  fst (run_top 16 (TFreshNRVO 3 0 long) (arm st)) = Throw BadAlloc.
+Proof. vm_compute. repeat split; reflexivity. Qed.
